@@ -607,9 +607,11 @@ class Data(object):
         available, but have missing values.
         """
         if self._remove_missing_across_all:
-            is_missing = np.isnan(self._get_score_cache[0][key])
+            # Infinite values are treated like missing values (get_scores
+            # discards them), so they must also be removed for all inputs
+            is_missing = np.isfinite(self._get_score_cache[0][key]) == 0
             for i in range(1, num_inputs):
-                is_missing = is_missing | (np.isnan(self._get_score_cache[i][key]))
+                is_missing = is_missing | (np.isfinite(self._get_score_cache[i][key]) == 0)
             for i in range(num_inputs):
                 self._get_score_cache[i][key][is_missing] = np.nan
 
